@@ -142,13 +142,67 @@ def _work(args):
             'notes': eng.notes}
 
 
-def run_units(repo, specs, units, jobs=16, timeout_ms=10000):
+def _child(conn, unit, timeout_ms):
+    try:
+        conn.send(_work((unit, timeout_ms)))
+    except Exception:
+        conn.send({'unit': unit, 'label': unit_label(unit), 'status': 'crash', 'detail': traceback.format_exc(), 'gen_s': 0,
+                   'obligations': [], 'covers': None, 'inlined': [], 'used_contracts': [], 'fn_hash': None, 'notes': [],
+                   'battery': None})
+    finally:
+        conn.close()
+
+
+def run_units(repo, specs, units, jobs=16, timeout_ms=10000, unit_deadline_s=None):
+    """one forked process per unit, at most `jobs` at a time, each under a hard wall-clock deadline (z3 does not
+    always honour its own timeout): a unit that exceeds it is reported as status 'timeout' (undecided)"""
     _G['repo'], _G['specs'] = repo, specs
-    if jobs <= 1 or len(units) <= 1:
+    if unit_deadline_s is None:
+        unit_deadline_s = max(240, timeout_ms * 40 // 1000)
+    if jobs <= 1 and len(units) <= 1 and not os.environ.get('PYVC_FORK'):
         return [_work((u, timeout_ms)) for u in units]
     ctx = multiprocessing.get_context('fork')
-    with ctx.Pool(min(jobs, len(units))) as pool:
-        return pool.map(_work, [(u, timeout_ms) for u in units], chunksize=1)
+    pending = list(enumerate(units))
+    running = {}
+    results = [None] * len(units)
+    while pending or running:
+        while pending and len(running) < jobs:
+            i, u = pending.pop(0)
+            parent, child = ctx.Pipe(duplex=False)
+            pr = ctx.Process(target=_child, args=(child, u, timeout_ms))
+            pr.start()
+            child.close()
+            running[i] = (pr, parent, time.time(), u)
+        done = []
+        for i, (pr, conn, t0, u) in running.items():
+            if conn.poll(0.02):
+                try:
+                    results[i] = conn.recv()
+                except EOFError:
+                    results[i] = None
+                pr.join(5)
+                done.append(i)
+            elif not pr.is_alive():
+                pr.join()
+                done.append(i)
+            elif time.time() - t0 > unit_deadline_s:
+                pr.terminate()
+                pr.join(5)
+                results[i] = {'unit': u, 'label': unit_label(u), 'status': 'timeout',
+                              'detail': 'unit exceeded its wall-clock deadline of %ds' % unit_deadline_s, 'gen_s': unit_deadline_s,
+                              'obligations': [], 'covers': None, 'inlined': [], 'used_contracts': [], 'fn_hash': None,
+                              'notes': [], 'battery': None}
+                done.append(i)
+        for i in done:
+            pr, conn, t0, u = running.pop(i)
+            conn.close()
+            if results[i] is None:
+                results[i] = {'unit': u, 'label': unit_label(u), 'status': 'crash', 'detail': 'worker died', 'gen_s': 0,
+                              'obligations': [], 'covers': None, 'inlined': [], 'used_contracts': [], 'fn_hash': None,
+                              'notes': [], 'battery': None}
+        if not done:
+            time.sleep(0.05)
+    return results
 
 
 def summarize(res, verbose=False):
